@@ -171,6 +171,7 @@ def r2(ctx):
     if len(loops) != 1:
         ctx.inconclusive(R, 'placement scan loop not recognised')
         return
+    require_no_break(ctx, R, sc, loops[0], SCAN, 'the placement characters', 'the rest of the placement field is ignored')
     CH = norm(loops[0]['elem'])
     scanner = {}
     for st in sc.stores:
@@ -339,6 +340,8 @@ def r3(ctx):
         ctx.violation(R, DISP + ':placement-parts', 'placement loops write %s' % sorted(set(loop_parts)), where(s.body))
     # loop structure: ranks reversed (8..1) outside, files a..h inside; '/' unless the rank is First; '-' iff both NoRights
     loops = for_loops(s)
+    for l_ in loops:
+        require_no_break(ctx, R, s, l_, DISP, 'ranks / files', 'the remaining squares are not written')
     srcs = sorted(sh(l['source'], 200) for l in loops)
     outer = [l for l in loops if 'ALL_RANKS' in sh(l['source'], 300)]
     inner = [l for l in loops if 'ALL_FILES' in sh(l['source'], 300)]
@@ -441,6 +444,8 @@ def r4(ctx):
                 ctx.violation(R, FROMB + ':ep-file', 'the en-passant component is not the file of the stored square', w)
         loops = for_loops(s)
         okp = False
+        for l_ in loops:
+            require_no_break(ctx, R, s, l_, FROMB, 'the squares', 'the pieces on the remaining squares are not copied')
         if len(loops) == 1 and 'ALL_SQUARES' in sh(loops[0]['source'], 200):
             SQ = ('mem', ('h', norm(loops[0]['elem'])))
             for c in s.calls:
@@ -494,6 +499,8 @@ def r4(ctx):
         w = where(s.body)
         loops = for_loops(s)
         okx = False
+        for l_ in loops:
+            require_no_break(ctx, R, s, l_, TRYF, 'the squares', 'the pieces on the remaining squares are not placed')
         if len(loops) == 1 and 'ALL_SQUARES' in sh(loops[0]['source'], 200):
             SQ = ('mem', ('h', norm(loops[0]['elem'])))
             slot = call('<board_builder::BoardBuilder as core::ops::index::Index<square::Square>>::index', ('param', 1), SQ)
